@@ -20,6 +20,8 @@
 #include <poll.h>
 #include <unistd.h>
 #include <sys/wait.h>
+#include <sys/time.h>
+#include <signal.h>
 
 #define LOGIN "user-c14"
 #define KEY   "key-c14-secret"
@@ -42,11 +44,20 @@ typedef struct {
 } cscript;
 #define MAXCS 6
 static cscript CS[MAXCS];
-/* the common runner allows 120 s per case; a client that spins without touching the socket layer (so that the step budget on socket
- * calls cannot see it) is cut off earlier: no schedule in this driver needs more than a few milliseconds */
-#define CASE_SECONDS 15
-static int case_begin_ok(int r) { if (r) alarm(CASE_SECONDS); return r; }
+/* the common runner allows 120 s of wall time per case; a client that spins without touching the socket layer (so that the step budget
+ * on socket calls cannot see it) is cut off earlier by a CPU-time watchdog (independent of machine load): no schedule in this driver
+ * needs more than a few milliseconds of CPU. The process then ends by SIGALRM, which the runner reports as crash:hang. */
+#define CASE_CPU_SECONDS 5
+static void on_vtalrm(int sig) { (void)sig; signal(SIGALRM, SIG_DFL); raise(SIGALRM); }
+static void cpu_watchdog(int sec) {
+	struct itimerval it;
+	memset(&it, 0, sizeof it);
+	it.it_value.tv_sec = sec;
+	setitimer(ITIMER_VIRTUAL, &it, NULL);
+}
+static int case_begin_ok(int r) { if (r) { signal(SIGVTALRM, on_vtalrm); cpu_watchdog(CASE_CPU_SECONDS); } return r; }
 #define CASE_BEGIN(...) case_begin_ok(vf_case_begin(__VA_ARGS__))
+#define CASE_END(x) do { cpu_watchdog(0); vf_case_end(x); } while (0)
 static long hook_calls, hook_budget;
 static int spin;
 static sn_conn *cur_conn;
@@ -516,7 +527,7 @@ static void rx_short_stream(const int *kinds, int nk) {
 			if (a == 2) SAMPLE(0, "%s: transport object, stream of PDU kinds %s (%zu bytes), boundary code %s (1 = chunk boundary, 2 = boundary + would-block)", vf_case_name(), stream_name(kinds, nk), n, code);
 			rx_exec(&st, nwb, 0, NULL);
 			vb_free(&st);
-			vf_case_end(1);
+			CASE_END(1);
 		} while (n > 1 && code_next(code, n - 1, alphas[a]));
 	}
 }
@@ -550,7 +561,7 @@ static void rx_cut_case(const int *kinds, int nk, size_t a, size_t b, int wb) {
 	if (b) { ev_add(&CS[0].rx, b, wb ? A_WB : A_CUT, 0); nwb += wb; }
 	rx_exec(&st, nwb, 0, NULL);
 	vb_free(&st);
-	vf_case_end(1);
+	CASE_END(1);
 }
 
 static void rx_long_stream(const int *kinds, int nk) {
@@ -566,7 +577,7 @@ static void rx_long_stream(const int *kinds, int nk) {
 		}
 		if (!huge && n <= 40 && VF_THOROUGH) {
 			for (a = 1; a < n; a++) for (b = a + 1; b < n; b++) rx_cut_case(kinds, nk, a, b, wb);   /* every 2-cut */
-		} else if ((VF_THOROUGH && (nk <= 2 || wb == 0)) || (!VF_THOROUGH && nk <= 2)) {
+		} else if ((VF_THOROUGH && (nk <= 2 || wb == 0)) || (!VF_THOROUGH && (nk <= 2 || wb == 0))) {
 			for (i = 0; i < no; i++) for (j = i + 1; j < no; j++) rx_cut_case(kinds, nk, off[i], off[j], wb);
 		}
 	}
@@ -584,6 +595,12 @@ static void part_rx(void) {
 			n = stream_size(k, nk);
 			if (small && n <= short_max) rx_short_stream(k, nk);
 			else if (VF_THOROUGH || nk <= 2) rx_long_stream(k, nk);
+			else {
+				/* quick: of the 3-PDU streams only those that fill the reassembly buffer (two maximum-size PDUs + a 2-byte or a maximum-size one) */
+				int huge = 0, other = 0;
+				for (i = 0; i < nk; i++) { if (k[i] == K_HUGE) huge++; else if (k[i] != 0) other++; }
+				if (huge >= 2 && !other) rx_long_stream(k, nk);
+			}
 			for (i = nk - 1; i >= 0; i--) { if (++idx[i] < NKIND) break; idx[i] = 0; }
 			if (i < 0) break;
 		}
@@ -624,7 +641,7 @@ static void part_rxc(void) {
 				ev_add(&CS[0].rx, st.n, act, 0);
 				rx_exec(&st, wb, act, &st2);
 				vb_free(&st); vb_free(&whole); vb_free(&st2);
-				vf_case_end(1);
+				CASE_END(1);
 			}
 		}
 	}
@@ -692,7 +709,7 @@ static void part_tx(void) {
 					if (!CASE_BEGIN("tx:s%d.%d.%d:w%d:t%s:lim%d", SETS[s][0], SETS[s][1], SETS[s][2], wb0, total > 1 ? code : "-", lim ? 1 : 100)) continue;
 					env_install();
 					tx_exec(SETS[s], ns, code, wb0, lim ? 1 : 100);
-					vf_case_end(1);
+					CASE_END(1);
 				} while (total > 1 && code_next(code, (size_t)total - 1, lim ? "01" : "012"));
 			}
 		}
@@ -750,7 +767,7 @@ static void part_txf(void) {
 			KSI_AsyncClient_free(c);
 			for (i = 0; i < ns; i++) KSI_AsyncHandle_free(h[i]);
 			count_env(steps);
-			vf_case_end(1);
+			CASE_END(1);
 		}
 	}
 }
@@ -951,7 +968,7 @@ static void e2e_rx_case(int n, size_t a, size_t b, int wb) {
 	ev_add(&CS[0].rx, a, wb ? A_WB : A_CUT, 0);
 	if (b) ev_add(&CS[0].rx, b, wb ? A_WB : A_CUT, 0);
 	scenario(&sc);
-	vf_case_end(1);
+	CASE_END(1);
 }
 static void e2e_tx_case(int n, int hold, size_t a, size_t b, int wb) {
 	scen_t sc = {n, 0, hold, 1, 40, "e2e:tx"};
@@ -964,7 +981,7 @@ static void e2e_tx_case(int n, int hold, size_t a, size_t b, int wb) {
 	if (wb == 2) ev_add(&CS[0].tx, a, A_WB, 0);
 	if (b) ev_add(&CS[0].tx, b, wb ? A_WB : A_CUT, 0);
 	scenario(&sc);
-	vf_case_end(1);
+	CASE_END(1);
 }
 
 static int boundary_near(size_t x, size_t unit, int n, size_t d) {
@@ -1018,7 +1035,7 @@ static void part_flt(void) {
 		snprintf(cls, sizeof cls, "flt:rx:%s", ANAME[RXACT[ai]]); sc.cls = cls;
 		ev_add(&CS[0].rx, off, RXACT[ai], arm ? RO[n1] : 0);
 		scenario(&sc);
-		vf_case_end(1);
+		CASE_END(1);
 	}
 	/* faults on the send side at every byte offset of the request stream */
 	for (ai = 0; ai < 4; ai++) for (n1 = 1; n1 <= 2; n1++) for (hold = 0; hold < 2; hold++) for (off = 0; off < RO[n1]; off++) {
@@ -1031,7 +1048,7 @@ static void part_flt(void) {
 		snprintf(cls, sizeof cls, "flt:tx:%s", ANAME[TXACT[ai]]); sc.cls = cls;
 		ev_add(&CS[0].tx, off, TXACT[ai], 0);
 		scenario(&sc);
-		vf_case_end(1);
+		CASE_END(1);
 	}
 	/* peer close / reset while a request is half written (the writer was told would-block at `off`) */
 	for (ai = 0; ai < 2; ai++) for (n1 = 1; n1 <= 2; n1++) for (off = 1; off < RO[n1]; off++) {
@@ -1044,7 +1061,7 @@ static void part_flt(void) {
 		ev_add(&CS[0].tx, off, A_WB, 0);
 		ev_add(&CS[0].rx, (size_t)reqs_before(off) * P_SZ, RXACT[ai], off);
 		scenario(&sc);
-		vf_case_end(1);
+		CASE_END(1);
 	}
 	/* connection establishment */
 	for (m = 0; m < 7; m++) for (n1 = 1; n1 <= 2; n1++) for (clock = 0; clock < 2; clock++) for (k = 0; k < 6; k++) {
@@ -1063,7 +1080,7 @@ static void part_flt(void) {
 		snprintf(cls, sizeof cls, "flt:conn:%s", MN[m]); sc.cls = cls;
 		CS[0].cmode = MM[m]; CS[0].cparam = param;
 		scenario(&sc);
-		vf_case_end(1);
+		CASE_END(1);
 	}
 }
 
@@ -1179,7 +1196,7 @@ static void part_blk(void) {
 		env_install();
 		ev_add(&CS[0].tx, a, pre ? A_EINTR : A_CUT, 0);
 		blk_exec("blk:tx", X_MUST_OK);
-		vf_case_end(1);
+		CASE_END(1);
 	}
 	for (a = 1; a < BR_SZ; a++) for (b = a + 1; b < BR_SZ; b++) {
 		if (!VF_THOROUGH && !(a % 9 == 1 && b % 7 == 3)) continue;
@@ -1187,14 +1204,14 @@ static void part_blk(void) {
 		env_install();
 		ev_add(&CS[0].tx, a, A_CUT, 0); ev_add(&CS[0].tx, b, A_CUT, 0);
 		blk_exec("blk:tx", X_MUST_OK);
-		vf_case_end(1);
+		CASE_END(1);
 	}
 	for (pre = 0; pre < 2; pre++) for (a = 1; a < BP_SZ; a++) {
 		if (!CASE_BEGIN("blk:rx:cut%zu:eintr%d", a, pre)) continue;
 		env_install();
 		ev_add(&CS[0].rx, a, pre ? A_EINTR : A_CUT, 0);
 		blk_exec("blk:rx", X_MUST_OK);
-		vf_case_end(1);
+		CASE_END(1);
 	}
 	for (a = 1; a < BP_SZ; a++) for (b = a + 1; b < BP_SZ; b++) {
 		if (!VF_THOROUGH && !((a < 7 && b < 9) || (a % 5 == 1 && b % 7 == 3))) continue;
@@ -1202,7 +1219,7 @@ static void part_blk(void) {
 		env_install();
 		ev_add(&CS[0].rx, a, A_CUT, 0); ev_add(&CS[0].rx, b, A_CUT, 0);
 		blk_exec("blk:rx", X_MUST_OK);
-		vf_case_end(1);
+		CASE_END(1);
 	}
 	for (ai = 0; ai < 4; ai++) for (a = 0; a <= BP_SZ; a++) {
 		char cls[40];
@@ -1213,7 +1230,7 @@ static void part_blk(void) {
 		snprintf(cls, sizeof cls, "blk:rxf:%s", ANAME[RXACT[ai]]);
 		ev_add(&CS[0].rx, a, RXACT[ai], BR_SZ);
 		blk_exec(cls, a == BP_SZ ? X_MUST_OK : X_MUST_NETERR);
-		vf_case_end(1);
+		CASE_END(1);
 	}
 	for (ai = 0; ai < 3; ai++) for (a = 0; a < BR_SZ; a++) {
 		char cls[40];
@@ -1222,7 +1239,7 @@ static void part_blk(void) {
 		snprintf(cls, sizeof cls, "blk:txf:%s", ANAME[TXACT[ai]]);
 		ev_add(&CS[0].tx, a, TXACT[ai], 0);
 		blk_exec(cls, X_MUST_NETERR);
-		vf_case_end(1);
+		CASE_END(1);
 	}
 	for (ai = 0; ai < 3; ai++) {
 		static const char *MN[] = {"refused", "eintr", "timedout"};
@@ -1233,7 +1250,7 @@ static void part_blk(void) {
 		snprintf(cls, sizeof cls, "blk:conn:%s", MN[ai]);
 		CS[0].cmode = MM[ai];
 		blk_exec(cls, ai == 1 ? X_MUST_OK : X_MUST_NETERR);
-		vf_case_end(1);
+		CASE_END(1);
 	}
 }
 
@@ -1244,13 +1261,13 @@ static void part_cal(void) {
 		env_install();
 		scenario(&sc);
 		if (!cal_async_ok) vf_fail("default-schedule-failed", "asynchronous service: %d requests under the default schedule (every socket call succeeds completely) did not all complete with their own responses on one connection", NCAL);
-		vf_case_end(1);
+		CASE_END(1);
 	}
 	if (CASE_BEGIN("cal:blk")) {
 		env_install();
 		blk_exec("cal:blk", X_MUST_OK);
 		if (!cal_blk_ok) vf_fail("default-schedule-failed", "blocking client: signing under the default schedule failed");
-		vf_case_end(1);
+		CASE_END(1);
 	}
 }
 
